@@ -148,6 +148,23 @@ def run_generic(base, local, remote, name, snapshot=False, extra=None):
     return run, merged, decisions
 
 
+_ACTIONS = None
+
+
+def schema_actions():
+    """the action enum of /repo's published merge_format.schema.json"""
+    global _ACTIONS
+    if _ACTIONS is None:
+        import json
+        from .common import REPO
+        try:
+            with open(os.path.join(REPO, "nbdime", "merge_format.schema.json")) as f:
+                _ACTIONS = list(json.load(f)["definitions"]["decision"]["properties"]["action"]["enum"])
+        except Exception:
+            _ACTIONS = []
+    return _ACTIONS
+
+
 def triple_event(tid, base, local, remote, with_diffs=False, generic=False):
     if generic and with_diffs:
         from nbdime import diff
@@ -157,6 +174,8 @@ def triple_event(tid, base, local, remote, with_diffs=False, generic=False):
         return ev
     ev = {"tid": tid, "base": enc(to_plain(base)), "local": enc(to_plain(local)),
           "remote": enc(to_plain(remote)), "runs": []}
+    if schema_actions():
+        ev["schemaActions"] = schema_actions()
     if with_diffs:
         from nbdime import diff_notebooks
         ev["ld"] = enc_diff(diff_notebooks(base, local))
